@@ -489,7 +489,13 @@ impl World for C20 {
                 // and serde's untagged / internally tagged enums, not something palette decides
                 let via = rng.below(3) as u8;
                 let style = if via == 2 { 2 } else { rng.below(3) as u8 };
-                (Kind::Enum { style, via }, false)
+                // a third of the JSON plans of named-field colors: the color among other palette colors in one
+                // untagged enum (style 3)
+                if via != 2 && struct_like && rng.chance(1, 3) {
+                    (Kind::Enum { style: 3, via }, false)
+                } else {
+                    (Kind::Enum { style, via }, false)
+                }
             }
             24..=27 => {
                 let form = rng.below(cases::CONTAINER_FORMS.len() as u64) as u8;
@@ -605,6 +611,11 @@ impl World for C20 {
                 }
                 if *doc != Doc::Serialized {
                     out.push(with(Kind::Json { write: write.clone(), read: read.clone(), doc: Doc::Serialized }));
+                }
+            }
+            Kind::Enum { style, via } if *style == 3 => {
+                if *via != 0 {
+                    out.push(with(Kind::Enum { style: 3, via: 0 }));
                 }
             }
             Kind::Enum { style, via } => {
@@ -1692,7 +1703,7 @@ fn execute(c: &'static CaseDesc, inner: Option<&'static CaseDesc>, vals: &[f64],
             }
         }
         Kind::Enum { style, via } => {
-            let sname = ["untagged", "internally-tagged", "adjacently-tagged"][(*style).min(2) as usize];
+            let sname = ["untagged", "internally-tagged", "adjacently-tagged", "untagged-among-other-colors"][(*style).min(3) as usize];
             let vname = ["json-text", "json-value", "ron"][(*via).min(2) as usize];
             let key = format!("enum:{sname}:{vname}:{}", c.name);
             ctx.state(&(c.name, kname, *style, *via));
@@ -1709,6 +1720,36 @@ fn execute(c: &'static CaseDesc, inner: Option<&'static CaseDesc>, vals: &[f64],
                         ctx.checked();
                         if text.matches('{').count() != 1 || text.matches("\"alpha\":").count() != 1 {
                             ctx.fail("stable-shape", &key, format!("{}: tag, the color's fields and alpha are not one flat object: {text}", c.name));
+                        }
+                    }
+                }
+                Ok(cases::EnumRound::OtherVariant { text, which, back_text }) => {
+                    // Another color type of the enum took the document. That is serde's business as long as the
+                    // type found all of its own components in the document: what comes back may hold nothing
+                    // that was not written (a component made up for a key the document does not have is wrong data)
+                    ctx.checked();
+                    ctx.probe("document-taken-by-another-color-type-of-the-enum");
+                    let (orig, back) = (serde_json::from_str::<serde_json::Value>(&text), serde_json::from_str::<serde_json::Value>(&back_text));
+                    match (orig, back) {
+                        (Ok(serde_json::Value::Object(o)), Ok(serde_json::Value::Object(b))) => {
+                            for (k, v) in &b {
+                                let same = match (o.get(k).and_then(|x| x.as_f64()), v.as_f64()) {
+                                    // the other color types of the enum are all `f32` ones: compare at that width
+                                    (Some(x), Some(y)) => (x as f32) == (y as f32),
+                                    _ => false,
+                                };
+                                if !same {
+                                    ctx.fail(
+                                        "round-trip:enum-among-colors",
+                                        &key,
+                                        format!("{}: written as {text}, read back through an untagged enum of colors as {which} {back_text}: component `{k}` is not what the document says", c.name),
+                                    );
+                                    return;
+                                }
+                            }
+                        }
+                        _ => {
+                            ctx.fail("round-trip:enum-among-colors", &key, format!("{}: written as {text}, read back as {which} {back_text}: not two objects", c.name));
                         }
                     }
                 }
